@@ -2,6 +2,8 @@ import CCVerif.Lemmas.EvalGround
 import CCVerif.Lemmas.EvalExamples
 import CCVerif.Lemmas.EvalExamples6
 import CCVerif.Lemmas.EvalExamples7
+import CCVerif.Lemmas.EvalExamples8
+import CCVerif.Lemmas.EvalExamples7n
 /-!
 # C02 — type soundness of checker + evaluator
 
@@ -568,5 +570,115 @@ theorem never_stuck_partial7 (env : Env) (e : Ast) (τ : ExprTy) (h : Typed7 env
 example : Typed7 Examples7.env7 Examples7.caller (.ty (.coll Examples.X)) :=
   ⟨_, _, _, 2, 10, Examples7.globalsOK_7, Examples7.callerN_frag, Examples7.caller_beta, Examples7.caller_normalizes⟩
 example : (evaluate 20 Examples7.env7 Examples7.caller).1 = .ok (.s [.e 1, .e 2]) := by decide
+
+/-! ## stage 8: filters (`ViFilter`, `EvaluateFilterTuple`, `EvaluateFilterComplex`)
+
+`Typed8` = `Typed6` with the fragment `FragF` (`Lemmas/EvalFiltersSim.lean`): `FragR` plus `Fi_{i1..ik}[P1,…,Pk](S)` with
+`S : ℬ(τ₁×…×τₙ)`, `P_j : ℬ(τ_{i_j})` and `Fi_{i1,…,ik}[P](S)` (`k ≥ 2`) with `P : ℬ(τ_{i_1}×…×τ_{i_k})`; the result has the
+type of `S`.  What could fault in the C++: `std::get<StructuredData>` of a parameter / the argument, `B()` of a
+non-set, `T().Component(index)` of a member that is no tuple or has no such component, `params[i]` - none of them does
+on a typed filter. -/
+
+def Typed8 (env : Env) (e : Ast) (τ : ExprTy) : Prop :=
+  ∃ G n, GlobalsOK env G ∧ FragF env G 6 [] [] e n τ ∧ NoCollide (patsOf e)
+
+theorem typed6_sub_typed8 {env : Env} {e : Ast} {τ : ExprTy} (h : Typed6 env e τ) : Typed8 env e τ :=
+  let ⟨G, n, hG, hf, hP⟩ := h; ⟨G, n, hG, hf.toF (Nat.le_refl _), hP⟩
+
+/-- **progress_preservation_partial8**: stage 6 extended with filters: evaluating the normalised tree never faults
+(never `stuck`), a returned value has the type of the expression (for a filter: the type of its argument), errors are
+documented ones. -/
+theorem progress_preservation_partial8 : progress_preservation_statement Typed8 := by
+  intro env e τ ⟨G, n, hG, hf, hP⟩ fuel
+  rcases evaluate_fragF_of_norm hG hf fuel (hf.normalizesTree6 hP fuel) with hg | ho | ⟨eid, pos, he, hd⟩
+  · cases τ with
+    | ty ty =>
+      obtain ⟨v, hr, hw, _, _⟩ := hg
+      rw [hr]
+      exact ⟨ty, rfl, (hasTy_iff v ty).mp hw.1⟩
+    | logic =>
+      obtain ⟨b, hr, _⟩ := hg
+      rw [hr]; rfl
+  · rw [ho]; trivial
+  · rw [he]; exact hd
+
+/-- **values_canonical_partial8**: returned values are canonical and of an `R0`-free type -/
+theorem values_canonical_partial8 (env : Env) (e : Ast) (τ : ExprTy) (h : Typed8 env e τ) (fuel : Nat) (v : Val)
+    (hv : (evaluate fuel env e).1 = .ok v) : canon v = true ∧ ∃ ty, τ = .ty ty ∧ noAny ty = true := by
+  obtain ⟨G, n, hG, hf, hP⟩ := h
+  rcases evaluate_fragF_of_norm hG hf fuel (hf.normalizesTree6 hP fuel) with hg | ho | ⟨eid, pos, he, _⟩
+  · cases τ with
+    | ty ty =>
+      obtain ⟨v', hr, hw, hn, _⟩ := hg
+      rw [hr] at hv; injection hv with hv; subst hv
+      exact ⟨hw.2, ty, rfl, hn⟩
+    | logic =>
+      obtain ⟨b, hr, _⟩ := hg
+      rw [hr] at hv; cases hv
+  · rw [ho] at hv; cases hv
+  · rw [he] at hv; cases hv
+
+/-- **never_stuck_partial8**: the possible outcomes on stage 8 -/
+theorem never_stuck_partial8 (env : Env) (e : Ast) (τ : ExprTy) (h : Typed8 env e τ) (fuel : Nat) :
+    (∃ v, (evaluate fuel env e).1 = .ok v) ∨ (∃ b, (evaluate fuel env e).1 = .okBool b) ∨
+    (evaluate fuel env e).1 = .outOfFuel ∨ (∃ eid pos, (evaluate fuel env e).1 = .err eid pos ∧ Documented eid) := by
+  obtain ⟨G, n, hG, hf, hP⟩ := h
+  rcases evaluate_fragF_of_norm hG hf fuel (hf.normalizesTree6 hP fuel) with hg | ho | ⟨eid, pos, he, hd⟩
+  · cases τ with
+    | ty ty => obtain ⟨v, hr, _⟩ := hg; exact Or.inl ⟨v, hr⟩
+    | logic => obtain ⟨b, hr, _⟩ := hg; exact Or.inr (Or.inl ⟨b, hr⟩)
+  · exact Or.inr (Or.inr (Or.inl ho))
+  · exact Or.inr (Or.inr (Or.inr ⟨eid, pos, he, hd⟩))
+
+/-! non-vacuity (`Lemmas/EvalExamples8.lean`): `Fi1[{1}]({1,2}×{1,2})` has type `ℬ(Z×Z)` and evaluates to `{(1,1),(1,2)}`;
+the conjunction `e8` of C01's example (both filter forms, empty first parameter before an erroneous one, empty argument,
+tuple pattern over a filter) is LOGIC and evaluates to `true` -/
+example : Typed8 Examples.env0 Examples.e8v (.ty (.coll (.tuple [Examples.Z, Examples.Z]))) :=
+  ⟨[], _, by intro g τ h; simp [lookup] at h, Examples.e8v_frag _ _, Examples.e8v_nocollide⟩
+example : (evaluate 30 Examples.env0 Examples.e8v).1 = .ok (.s [.t [.e 1, .e 1], .t [.e 1, .e 2]]) := by decide
+example : Typed8 Examples.env0 Examples.e8 .logic :=
+  ⟨[], _, by intro g τ h; simp [lookup] at h, Examples.e8_frag, Examples.e8_nocollide⟩
+example : (evaluate 30 Examples.env0 Examples.e8).1 = .okBool true := by decide
+
+/-! ## stage 7 without the per-expression normaliser hypothesis (`Lemmas/EvalCallsNorm.lean`)
+
+`Typed7n`: `e` is of the class `CN` (calls with call-free, binder-free arguments and bodies, anywhere among the
+stage-3 constructs); its inlined form `es` - which `CN.normalize` proves to be what the normaliser returns - is typed in
+stage 6; the type of `e` is taken to be the type of `es`. -/
+
+def Typed7n (env : Env) (e : Ast) (τ : ExprTy) : Prop :=
+  ∃ G es, GlobalsOK env G ∧ CN env.funcs [] e es ∧ FragR env G 6 [] [] es es τ
+
+theorem typed7n_sub_typed7 {env : Env} {e : Ast} {τ : ExprTy} (h : Typed7n env e τ)
+    (hf : ∃ f0 n, normalizeTree env.funcs f0 e = some n) : Typed7 env e τ := by
+  obtain ⟨G, es, hG, hcn, hfr⟩ := h
+  obtain ⟨f0, n, hn⟩ := hf
+  have : n = es := by
+    rcases hcn.normalizesTree f0 with h1 | h1
+    · rw [h1] at hn; cases hn
+    · rw [h1] at hn; injection hn with hn; exact hn.symm
+  subst this
+  exact ⟨G, n, n, 2, f0, hG, hfr, hcn.beta, hn⟩
+
+/-- **progress_preservation_partial7n**: calls of the class `CN`: evaluating the inlined tree never faults, a value has
+the type of the expression, errors are documented ones - with no hypothesis about the normaliser's answer -/
+theorem progress_preservation_partial7n : progress_preservation_statement Typed7n := by
+  intro env e τ ⟨G, es, hG, hcn, hf⟩ fuel
+  rcases evaluate_calls' hG hf hcn.beta hcn.normalizesTree fuel with hg | ho | ⟨eid, pos, he, hd⟩
+  · cases τ with
+    | ty ty =>
+      obtain ⟨v, hr, hw, _, _⟩ := hg
+      rw [hr]
+      exact ⟨ty, rfl, (hasTy_iff v ty).mp hw.1⟩
+    | logic =>
+      obtain ⟨b, hr, _⟩ := hg
+      rw [hr]; rfl
+  · rw [ho]; trivial
+  · rw [he]; exact hd
+
+/-! non-vacuity: `D{x∈X1 | F2[{x}, X1] = {x}}` with `F2 :== [s∈ℬ(X1), t∈ℬ(X1)] s∩t` has type `ℬ(X1)` and evaluates to `{1,2}` -/
+example : Typed7n Examples7.env7n Examples7.caller2 (.ty (.coll Examples.X)) :=
+  ⟨_, _, Examples7.globalsOK_7n, Examples7.caller2_cn, Examples7.caller2N_frag⟩
+example : (evaluate 20 Examples7.env7n Examples7.caller2).1 = .ok (.s [.e 1, .e 2]) := by decide
 
 end CCVerif.Eval
